@@ -79,7 +79,10 @@ static void operand(Ctx &c, const Value *v, int depth) {
   } else if (auto *g = dyn_cast<GlobalVariable>(v)) {
     c.os << "{\"g\":\"" << esc(g->getName()) << "\"}";
   } else if (auto *ga = dyn_cast<GlobalAlias>(v)) {
-    c.os << "{\"g\":\"" << esc(ga->getName()) << "\"}";
+    if (auto *af = dyn_cast<Function>(ga->getAliaseeObject()))
+      c.os << "{\"f\":\"" << esc(af->getName()) << "\"}";
+    else
+      c.os << "{\"g\":\"" << esc(ga->getName()) << "\"}";
   } else if (auto *ci = dyn_cast<ConstantInt>(v)) {
     SmallString<40> s;
     ci->getValue().toString(s, 10, ci->getBitWidth() > 1 ? true : false);
@@ -222,7 +225,7 @@ int main(int argc, char **argv) {
           if (Function *cf = cb->getCalledFunction()) {
             os << ",\"callee\":\"" << esc(cf->getName()) << "\"";
           } else {
-            const Value *cv = cb->getCalledOperand()->stripPointerCasts();
+            const Value *cv = cb->getCalledOperand()->stripPointerCastsAndAliases();
             if (auto *cf2 = dyn_cast<Function>(cv)) os << ",\"callee\":\"" << esc(cf2->getName()) << "\"";
             else { os << ",\"icallee\":"; operand(c, cb->getCalledOperand()); }
           }
